@@ -35,7 +35,7 @@ EXPLANATION = (
     "of the reader adds or multiplies an unbounded 32-bit value taken from the input before widening it to "
     "the 64-bit size it is compared with (directly or through a local); (10) a member of the reader object "
     "that is freed outside the destructor is assigned again before the function returns, so the destructor "
-    "cannot free it a second time. Decides these "
+    "cannot free it a second time. (14) an index that was range-checked was checked against the entry count of the very array it then subscripts (R13 index-count: schema leaf arrays by num_leaves, a row group's chunks by its num_columns, ...; the check may sit in a callee the index was handed to) - a row group may claim more chunks than the schema has leaves. Decides these "
     "clauses, not arithmetic adequacy of every guard outside the grids, total running time, nor leaks "
     "inside zlib/zstd.")
 
